@@ -142,3 +142,14 @@ def zoo(t):
         else:
             out.append((cls, x))
     return out, missing
+
+
+def boundary(t):
+    """class name -> constructors of boundary instances (empty containers, empty / zero / None constants, no arguments, no ELSE)"""
+    a = lambda: T.Field("a", table=t)  # noqa
+    return {
+        "Array": [lambda: T.Array()], "Tuple": [lambda: T.Tuple()], "JSON": [lambda: T.JSON({}), lambda: T.JSON([]), lambda: T.JSON("")],
+        "ValueWrapper": [lambda: T.ValueWrapper(""), lambda: T.ValueWrapper(None), lambda: T.ValueWrapper(0), lambda: T.ValueWrapper(False)],
+        "Function": [lambda: T.Function("NOW")], "Case": [lambda: P.Case().when(a() == 1, 2)], "Coalesce": [lambda: F.Coalesce(a())],
+        "Concat": [lambda: F.Concat(a())], "LiteralValue": [lambda: T.LiteralValue("")], "Field": [lambda: T.Field("a")],
+    }
